@@ -79,8 +79,9 @@ func (cs *CacheStorage) GetWithoutLock(key []byte, object CacheObject) (interfac
 		fmt.Printf("Error in CacheStorage.Get(): %s\n", err.Error())
 		return nil, true
 	}
-	// add to cache
-	cs.Cache.Add(hex.EncodeToString(key), res)
+	// add to cache; when the LRU is full this evicts an entry, so write the cached entries to the database first
+	// (as Set does) or an evicted, not yet flushed object - e.g. the evidence of another session - would be lost
+	cs.SetWithoutLockAndSealCheck(hex.EncodeToString(key), res)
 	return res, true
 }
 
